@@ -177,7 +177,7 @@ func ledgerName(i int) string { return fmt.Sprintf("L%d", i) }
 // mandatorySites can never be switched off: several goroutines may be woken by
 // one action right before them (batch completion, lock release) and must be
 // serialised by the scheduler before they touch shared state.
-var mandatorySites = map[string]bool{"run.done": true, "exec.persisted": true, "lock.granted": true, "lock.cancelled": true}
+var mandatorySites = map[string]bool{"run.done": true, "exec.persisted": true, "lock.granted": true, "lock.cancelled": true, "append.lockwait": true}
 
 // allHookSites lists the verifhook sites of /repo that buggify may switch off.
 var optionalSites = []string{"exec.ref.taken", "exec.ref.checked", "exec.locked", "exec.balances", "exec.txid",
@@ -274,6 +274,10 @@ func (s *Sim) root() {
 	s.startTime = time.Now()
 	s.base = logging.ContextWithLogger(context.Background(), noopLogger{})
 	verifhook.Hook = s.hook
+	verifhook.Dead = func(ctx context.Context) bool {
+		t := taskFrom(ctx)
+		return t != nil && t.Gen != nil && t.Gen.dead.Load()
+	}
 	defer func() { s.simTime = time.Since(s.startTime) }()
 
 	s.startGeneration(0)
@@ -544,23 +548,23 @@ func (s *Sim) dueFault(ps []*Task) (Fault, bool) {
 	if len(s.faults) == 0 || s.cur == nil {
 		return Fault{}, false
 	}
-	f := s.faults[0]
-	if f.Point == "" {
-		if s.sched.step >= f.Step {
-			s.faults = s.faults[1:]
+	// faults are independent of each other: the first one (in plan order) whose
+	// trigger is met fires and is consumed
+	for i, f := range s.faults {
+		due := false
+		if f.Point == "" {
+			due = s.sched.step >= f.Step
+		} else {
+			for _, p := range ps {
+				if p.point == f.Point && p.pointNth == f.Nth {
+					due = true
+				}
+			}
+		}
+		if due {
+			s.faults = append(append([]Fault(nil), s.faults[:i]...), s.faults[i+1:]...)
 			return f, true
 		}
-		return Fault{}, false
-	}
-	for _, p := range ps {
-		if p.point == f.Point && p.pointNth == f.Nth {
-			s.faults = s.faults[1:]
-			return f, true
-		}
-	}
-	// a point trigger whose count has already been passed can never fire: drop it
-	if s.pointCnt[f.Point] > f.Nth {
-		s.faults = s.faults[1:]
 	}
 	return Fault{}, false
 }
